@@ -572,12 +572,7 @@ func ruleTreeSize(c *Ctx, r *R) {
 		if fn == nil {
 			continue
 		}
-		good := false
-		instrs(fn, func(b *ssa.BasicBlock, i int, in ssa.Instruction) {
-			if ret, ok := in.(*ssa.Return); ok && strings.HasSuffix(path(ret.Results[0]), ".size") {
-				good = true
-			}
-		})
+		good := returnsField(fn, "size")
 		r.ok(good, treeRel+"."+n+"|returns-size", fn.Pos(), "Len must report the maintained size")
 	}
 }
@@ -713,6 +708,16 @@ func ruleTreeSearchCost(c *Ctx, r *R) {
 			for _, g := range guardsOf(cmpCall.Block()) {
 				if cf, ok := g.asCmp(); ok && cf.op == token.LSS && strings.HasSuffix(path(cf.y), "x.n") {
 					bounded = true
+				}
+				// `for i := range x.keys[:int(x.n)]`: i < len(x.keys[:x.n])
+				if cf, ok := g.asCmp(); ok && cf.op == token.LSS {
+					if lc, ok := resolveVal(cf.y).(*ssa.Call); ok {
+						if bi, ok := lc.Call.Value.(*ssa.Builtin); ok && bi.Name() == "len" {
+							if sl, ok := resolveVal(lc.Call.Args[0]).(*ssa.Slice); ok && sl.High != nil && sl.Low == nil && strings.HasSuffix(path(resolveVal(sl.High)), "x.n") {
+								bounded = true
+							}
+						}
+					}
 				}
 			}
 			// argument order: compare(k, x.keys[i])
@@ -1032,4 +1037,21 @@ func plusOne(a, b ssa.Value) bool {
 		}
 	}
 	return false
+}
+
+// returnsField: every return of fn yields the value of a field named `field` (read directly, through a local, or through an
+// in-package accessor such as t.Len()).
+func returnsField(fn *ssa.Function, field string) bool {
+	n, all := 0, true
+	instrs(fn, func(b *ssa.BasicBlock, i int, in ssa.Instruction) {
+		ret, ok := in.(*ssa.Return)
+		if !ok || len(ret.Results) == 0 {
+			return
+		}
+		n++
+		if !symOf(ret.Results[0], provEnv{}).fieldSuffix(field) {
+			all = false
+		}
+	})
+	return n > 0 && all
 }
